@@ -256,6 +256,7 @@ def run_path(world, contract, ex, ctx, prefix, report):
     report.called |= p.called
     report.inlined |= p.inlined
     report.used_abstract |= p.used_abstract
+    report.opaque = getattr(report, 'opaque', set()) | p.__dict__.get('opaque', set())
     report.abstracted_text.update(p.abstracted_text)
     report.cut_hit = report.cut_hit or p.cut_hit
     return p.new_prefixes
@@ -265,7 +266,7 @@ def verify_function(world, contract, discharge=True):
     t0 = time.time()
     rep = FunctionReport(contract)
     try:
-        ex = extract.find(contract.module, contract.name)
+        ex = extract.find(contract.module, contract.name.split('#')[0])
     except LookupError as e:
         rep.undecided = 'function not found: %s' % e
         return rep
